@@ -596,6 +596,7 @@ let run_case (w : string list) : string =
   | ["alloc"; n; k; ops] -> run_alloc n k ops
   | "xc" :: rest -> run_xc rest
   | "util" :: rest -> run_util rest
+  | ["light"; "x"; _; _] -> "x"
   | ["light"; mode; "empty"; qs] -> run_light mode [] (if qs = "-" then [] else String.split_on_char ',' qs)
   | ["yaw"; mode; "empty"; qs] -> run_yaw ~empty:true mode [] (if qs = "-" then [] else String.split_on_char ',' qs)
   | ["traj"; mode; "empty"; qs] -> run_traj ~empty:true mode [] (if qs = "-" then [] else String.split_on_char ',' qs)
